@@ -525,6 +525,81 @@ Proof.
   - apply vty_str in Hvt as [z ->]. cbn. unfold datum_str. rewrite Hc, Hcv. reflexivity.
 Qed.
 
+
+(* ---- x++ / x-- as a value ---- *)
+Lemma stamp_eq rs tm : tm = time_reg rs -> Vm.stamp tm = dtime_of (RefSem.stamp rs).
+Proof. intros ->. unfold Vm.stamp, RefSem.stamp. destruct (time_is_zero (time_reg rs)); reflexivity. Qed.
+
+Lemma rel_write rs ms tm vs m keys p v :
+  rel rs ms tm vs -> points (vs_store vs) (N.to_nat m) keys p -> vty v = RefSem.mty decls m ->
+  rel (RefSem.write m keys v rs) ms tm
+      (Vm.with_store vs (mkstore (list_set (s_heap (vs_store vs)) p (mkdcell (dval_of v) (Vm.stamp tm)))
+                                 (s_mets (vs_store vs)))).
+Proof.
+  intros [Hm Ht Hs Hmm] Hp Hv. constructor; cbn; auto.
+  rewrite (stamp_eq rs tm Ht). apply write_sim; auto.
+Qed.
+
+Lemma heap_upd_ok st p c c' (f : dcell -> Vm.res dcell) :
+  nth_error (s_heap st) p = Some c -> f c = Ok c' ->
+  heap_upd st p f = Ok (mkstore (list_set (s_heap st) p c') (s_mets st)).
+Proof. intros H1 H2. unfold heap_upd. rewrite H1, H2. reflexivity. Qed.
+
+
+Lemma eval_incr dec m ks s :
+  eval (EIncr dec m ks) s =
+  rbind (eval_keys ks s) (fun keys s1 =>
+    let (v, st) := obtain decls m keys (rs_store s1) in
+    match v with
+    | RInt z => let z' := if dec then i_sub z 1 else i_add z 1 in
+                ROk (RInt z') (RefSem.write m keys (RInt z') (RefSem.with_store s1 st))
+    | _ => RefSem.fail REType (RefSem.with_store s1 st)
+    end).
+Proof. reflexivity. Qed.
+Lemma cexpr_incr pc dec m ks :
+  cexpr pc (EIncr dec m ks) =
+  clval decls pc m ks ++ [ins (if dec then Dec else Inc) ONil].
+Proof. unfold clval. cbn [Codegen.cexpr]. rewrite <- app_assoc. reflexivity. Qed.
+
+Lemma case_incr dec m ks :
+  metric_ok decls m (exprs_len ks) = true -> ksim ks -> ty_eqb (wmty decls m) TInt = true ->
+  esim (EIncr dec m ks) TInt.
+Proof.
+  intros Hmok IHk Hty. apply from_inj.
+  assert (Hmt : RefSem.mty decls m = TInt)
+    by (change (RefSem.mty decls m) with (wmty decls m); destruct (wmty decls m); cbn in Hty; congruence).
+  intros pc stk g ms tm rs vs Hat Hrel. rewrite cexpr_incr in *. rewrite eval_incr.
+  apply at_pc_app in Hat as [Hat1 Hat2]. rewrite app_length. cbn [length].
+  pose proof (sim_lval m ks Hmok IHk pc stk g ms tm rs vs Hat1 Hrel) as H. unfold target in H.
+  destruct (eval_keys ks rs) as [keys rs0|[|x] rs0]; cbn [RefSem.bind] in *; [| contradiction | ].
+  2:{ destruct H as (n & t1 & e' & vs' & Hn & Hst & Hx). exists n, t1, e', vs'. split; [lia|]. auto. }
+  destruct (obtain decls m keys (rs_store rs0)) as [v rst'] eqn:Hob.
+  destruct H as (p & ms1 & vs1 & n & Hn & Hst & Hrel1 & Hext & Hpts & c & Hcp & Hcv & Hvt). cbn [fst snd] in *.
+  rewrite Hmt in Hvt. apply vty_int in Hvt as [z ->].
+  set (z' := if dec then i_sub z 1 else i_add z 1).
+  set (c' := mkdcell (DInt z') (Vm.stamp tm)).
+  set (vs2 := Vm.with_store vs1 (mkstore (list_set (s_heap (vs_store vs1)) p c') (s_mets (vs_store vs1)))).
+  split; [reflexivity|].
+  exists (VI64 z' :: stk), ms1, vs2, (n + 1)%nat.
+  split; [eexists; split; reflexivity|]. split; [lia|]. split; [|split].
+  - eapply nsteps_snoc; [exact Hst|].
+    replace (pc + (length (clval decls pc m ks) + 1))%nat with (S (pc + length (clval decls pc m ks))) by lia.
+    eapply step_next; [exact (at_pc_head _ _ _ _ Hat2)|].
+    assert (Hup : forall d, (d = 1 /\ dec = false) \/ (d = wrap64 (-1) /\ dec = true) ->
+              heap_upd (vs_store vs1) p (cell_inc d tm) =
+              Ok (mkstore (list_set (s_heap (vs_store vs1)) p c') (s_mets (vs_store vs1)))).
+    { intros d Hd. eapply heap_upd_ok; [exact Hcp|]. unfold cell_inc. rewrite Hcv. cbn [dval_of]. unfold c', z'.
+      destruct Hd as [[-> ->] | [-> ->]]; [reflexivity|].
+      unfold i_sub. replace (wrap64 (-1)) with (-1) by reflexivity. replace (z + -1) with (z - 1) by lia. reflexivity. }
+    unfold vs2. destruct dec; cbn -[wrap64].
+    + rewrite (Hup (wrap64 (-1))) by auto. cbn. unfold datum_int. cbn [s_heap].
+      rewrite nth_error_list_set_same by (apply nth_error_Some; congruence). reflexivity.
+    + rewrite (Hup 1) by auto. cbn. unfold datum_int. cbn [s_heap].
+      rewrite nth_error_list_set_same by (apply nth_error_Some; congruence). reflexivity.
+  - apply (rel_write (RefSem.with_store rs0 rst') ms1 tm vs1 m keys p (RInt z')); [exact Hrel1 | exact Hpts | rewrite Hmt; reflexivity].
+  - eapply ext_trans; [exact Hext|]. intros m' ks' p' Hp. exact Hp.
+Qed.
+
 (* ---- every well-typed expression ---- *)
 Scheme expr_mind := Induction for expr Sort Prop
   with exprs_mind := Induction for exprs Sort Prop.
@@ -604,6 +679,12 @@ Proof.
     apply case_rsubst; [exact Hx1 | apply IHb, opt_is, Hx2 | apply IHc, opt_is, Hx3].
   - intros t H. inversion H; subst. apply case_timestamp.
   - intros t H. inversion H; subst. apply case_getfilename.
+  - intros dec m ks IHk t H.
+    change (etype (EIncr dec m ks)) with
+      (if metric_ok decls m (exprs_len ks) && keys_ok ks && ty_eqb (wmty decls m) TInt then Some TInt else None) in H.
+    destruct (metric_ok decls m (exprs_len ks) && keys_ok ks && ty_eqb (wmty decls m) TInt) eqn:Hc; inversion H; subst.
+    apply andb_prop in Hc as [Hc Hx3]. apply andb_prop in Hc as [Hx1 Hx2].
+    exact (case_incr dec m ks Hx1 (IHk Hx2) Hx3).
   - intros _. apply case_knil.
   - intros e IHe r IHr H.
     change (keys_ok (XCons e r)) with (Wt.opt_ty_is (etype e) TStr && keys_ok r) in H.
